@@ -46,3 +46,512 @@ LEAVES = [
     dict(name='vectorLen', file='rdm/combine.py', func='from_partials', kind='assign',
          target='vector_len', nth=0, params={'n_patterns': 'Nat'}, ret='Nat'),
 ]
+
+
+# ======================================================================================
+# Round 3: derived leaves — dispatch conditions, option forwarding, defaults, descriptor
+# rules.  These are *structural* facts of calc.py / build_rdm.py / computations.py (which
+# estimator a method name reaches, which options are forwarded where, which index picks the
+# per-dataset noise, how the movie's time descriptor is formed ...).  They are outside
+# py2lean's scalar subset, so this module first derives, from the current source text
+# (Python `ast`), a tiny Python function per fact into `harness/leaves/_C01_derived.py`;
+# py2lean then translates those functions as usual.  Nothing is cached.  Every derivation
+# fails closed: an unexpected shape of the anchor yields a call of `__underivable__`,
+# which py2lean reports as an untranslatable leaf (= broken obligation).
+#
+# Codes: method names / estimators  euclidean 0, correlation 1, mahalanobis 2, poisson 3
+# (anything else 9); flags are 0 / 1.
+# ======================================================================================
+import ast
+import os
+
+SRC = os.environ.get('RSA_REPO_SRC', '/repo/src/rsatoolbox')
+HERE = os.path.dirname(os.path.abspath(__file__))
+DERIVED = os.path.join(HERE, '_C01_derived.py')
+
+METHODS = {'euclidean': 0, 'correlation': 1, 'mahalanobis': 2, 'poisson': 3}
+ESTIMATORS = {'calc_rdm_euclidean': 0, 'calc_rdm_correlation': 1, 'calc_rdm_mahalanobis': 2,
+              'calc_rdm_poisson': 3}
+
+
+class Underivable(Exception):
+    pass
+
+
+_TREES = {}
+
+
+def _tree(path):
+    if path not in _TREES:
+        _TREES[path] = ast.parse(open(os.path.join(SRC, path)).read())
+    return _TREES[path]
+
+
+def _func(path, name):
+    for node in ast.walk(_tree(path)):
+        if isinstance(node, ast.FunctionDef) and node.name == name:
+            return node
+    raise Underivable(f'{path}: function {name} not found')
+
+
+def _bind(call, fn):
+    """actual argument expression of every formal parameter of `fn` at `call` (None = not passed)"""
+    formals = [a.arg for a in fn.args.args]
+    got = {f: None for f in formals}
+    if any(isinstance(a, ast.Starred) for a in call.args) or any(k.arg is None for k in call.keywords):
+        raise Underivable(f'star arguments in `{ast.unparse(call)}`')
+    for f, a in zip(formals, call.args):
+        got[f] = a
+    for k in call.keywords:
+        if k.arg not in got:
+            raise Underivable(f'unknown keyword {k.arg} in `{ast.unparse(call)}`')
+        got[k.arg] = k.value
+    return got
+
+
+def _default(fn, name):
+    formals = [a.arg for a in fn.args.args]
+    defaults = fn.args.defaults
+    i = formals.index(name) - (len(formals) - len(defaults))
+    return defaults[i] if i >= 0 else None
+
+
+def _is_name(e, name):
+    return isinstance(e, ast.Name) and e.id == name
+
+
+def _top_split(fn, what):
+    """the `if isinstance(dataset, Iterable): A else: B` at the top level of calc_rdm / calc_rdm_movie"""
+    ifs = [n for n in fn.body if isinstance(n, ast.If)
+           and ast.unparse(n.test) == 'isinstance(dataset, Iterable)']
+    if len(ifs) != 1 or not ifs[0].orelse:
+        raise Underivable(f'{fn.name}: top-level `isinstance(dataset, Iterable)` split not found')
+    return ifs[0].body if what == 'list' else ifs[0].orelse
+
+
+def _method_chain():
+    """[(method name, call node)] of the `if method == '...': rdm = calc_rdm_x(...)` chain"""
+    body = _top_split(_func('rdm/calc.py', 'calc_rdm'), 'single')
+    chain = [n for n in body if isinstance(n, ast.If)]
+    if not chain or not isinstance(body[0], ast.If):
+        raise Underivable('calc_rdm: method dispatch chain not found')
+    node, out = body[0], []
+    while True:
+        t = node.test
+        if not (isinstance(t, ast.Compare) and len(t.ops) == 1 and isinstance(t.ops[0], ast.Eq)
+                and _is_name(t.left, 'method') and isinstance(t.comparators[0], ast.Constant)
+                and isinstance(t.comparators[0].value, str)):
+            raise Underivable(f'calc_rdm: dispatch test `{ast.unparse(t)}` is not `method == "<name>"`')
+        if not (len(node.body) == 1 and isinstance(node.body[0], ast.Assign)
+                and _is_name(node.body[0].targets[0], 'rdm')
+                and isinstance(node.body[0].value, ast.Call)
+                and isinstance(node.body[0].value.func, ast.Name)):
+            raise Underivable(f'calc_rdm: branch of {ast.unparse(t)} is not `rdm = f(...)`')
+        out.append((t.comparators[0].value, node.body[0].value))
+        if len(node.orelse) == 1 and isinstance(node.orelse[0], ast.If):
+            node = node.orelse[0]
+        else:
+            break
+    return out
+
+
+def _branch(name):
+    hits = [c for n, c in _method_chain() if n == name]
+    if len(hits) != 1:
+        raise Underivable(f'calc_rdm: {len(hits)} dispatch branches for {name!r}')
+    return hits[0]
+
+
+def _chain_fn(per_method, params, other='0'):
+    """python source of an if/elif chain over the four method codes"""
+    lines = []
+    for k, (name, code) in enumerate(METHODS.items()):
+        lines.append(f"    {'if' if k == 0 else 'elif'} method == {code}:")
+        lines.append(f'        return {per_method(name)}')
+    lines.append('    else:')
+    lines.append(f'        return {other}')
+    return lines
+
+
+def _parse_input_flag(est_fn):
+    """what the estimator hands to `_parse_input` as remove_mean: 'param' | '0' | '1'"""
+    calls = [n for n in ast.walk(est_fn) if isinstance(n, ast.Call)
+             and isinstance(n.func, ast.Name) and n.func.id == '_parse_input']
+    if len(calls) != 1:
+        raise Underivable(f'{est_fn.name}: expected one _parse_input call, found {len(calls)}')
+    got = _bind(calls[0], _func('rdm/calc.py', '_parse_input'))
+    if not (_is_name(got['dataset'], 'dataset') and _is_name(got['descriptor'], 'descriptor')):
+        raise Underivable(f'{est_fn.name}: _parse_input is not called on (dataset, descriptor)')
+    e = got['remove_mean']
+    if e is None:
+        d = _default(_func('rdm/calc.py', '_parse_input'), 'remove_mean')
+        e = d
+    if _is_name(e, 'remove_mean'):
+        return 'param'
+    if isinstance(e, ast.Constant) and isinstance(e.value, bool):
+        return '1' if e.value else '0'
+    raise Underivable(f'{est_fn.name}: remove_mean argument `{ast.unparse(e)}` of _parse_input')
+
+
+def _d_dispatch():
+    def per(name):
+        call = _branch(name)
+        return str(ESTIMATORS.get(call.func.id, 9))
+    return _chain_fn(per, ['method'], other='9')
+
+
+def _d_parse_flag():
+    def per(name):
+        call = _branch(name)
+        est = _func('rdm/calc.py', call.func.id)
+        got = _bind(call, est)
+        if not (_is_name(got.get('dataset'), 'dataset') and _is_name(got.get('descriptor'), 'descriptor')):
+            raise Underivable(f'{name}: estimator is not called on (dataset, descriptor)')
+        inner = _parse_input_flag(est)
+        if inner != 'param':
+            return inner
+        e = got.get('remove_mean')
+        if e is None:
+            e = _default(est, 'remove_mean')
+        if _is_name(e, 'remove_mean'):
+            return 'remove_mean'
+        if isinstance(e, ast.Constant) and isinstance(e.value, bool):
+            return '1' if e.value else '0'
+        raise Underivable(f'{name}: remove_mean argument `{ast.unparse(e)}`')
+    return _chain_fn(per, ['method', 'remove_mean'])
+
+
+def _d_fwd(option_names):
+    def per(name):
+        call = _branch(name)
+        est = _func('rdm/calc.py', call.func.id)
+        got = _bind(call, est)
+        return '1' if all(o in got and _is_name(got[o], o) for o in option_names) else '0'
+    return lambda: _chain_fn(per, ['method'])
+
+
+def _d_mahal_none():
+    fn = _func('rdm/calc.py', 'calc_rdm_mahalanobis')
+    first = [n for n in fn.body if isinstance(n, ast.If)]
+    if not first or ast.unparse(first[0].test) != 'noise is None' or len(first[0].body) != 1 \
+            or not isinstance(first[0].body[0], ast.Return) \
+            or not isinstance(first[0].body[0].value, ast.Call):
+        raise Underivable('calc_rdm_mahalanobis: `if noise is None: return f(...)` not found')
+    call = first[0].body[0].value
+    if not isinstance(call.func, ast.Name) or call.func.id != 'calc_rdm_euclidean':
+        raise Underivable('calc_rdm_mahalanobis: noise=None does not fall back to calc_rdm_euclidean')
+    got = _bind(call, _func('rdm/calc.py', 'calc_rdm_euclidean'))
+    if not (_is_name(got['dataset'], 'dataset') and _is_name(got['descriptor'], 'descriptor')):
+        raise Underivable('calc_rdm_mahalanobis: fallback is not called on (dataset, descriptor)')
+    e = got['remove_mean'] or _default(_func('rdm/calc.py', 'calc_rdm_euclidean'), 'remove_mean')
+    if _is_name(e, 'remove_mean'):
+        return ['    return remove_mean']
+    if isinstance(e, ast.Constant) and isinstance(e.value, bool):
+        return [f'    return {int(e.value)}']
+    raise Underivable(f'fallback remove_mean `{ast.unparse(e)}`')
+
+
+def _d_default(fname, pname):
+    def go():
+        d = _default(_func('rdm/calc.py', fname), pname)
+        if not (isinstance(d, ast.Constant) and isinstance(d.value, (int, float))
+                and not isinstance(d.value, bool)):
+            raise Underivable(f'{fname}: default of {pname} is not a number')
+        return [f'    return {d.value!r}']
+    return go
+
+
+def _rec_calls(body, fname):
+    calls = []
+    for stmt in body:
+        for n in ast.walk(stmt):
+            if isinstance(n, ast.Call) and isinstance(n.func, ast.Name) and n.func.id == fname:
+                calls.append(n)
+    if not calls:
+        raise Underivable(f'{fname}: no recursive call in the list branch')
+    return calls
+
+
+def _d_list_fwd(fname, option, default_from=None):
+    """value the per-dataset call of the list branch receives for `option`"""
+    def go():
+        fn = _func('rdm/calc.py', fname)
+        calls = _rec_calls(_top_split(fn, 'list'), fname)
+        vals = set()
+        for c in calls:
+            got = _bind(c, fn)
+            e = got.get(option)
+            if e is None:
+                e = _default(fn, option)
+            vals.add(ast.unparse(e))
+        if len(vals) != 1:
+            raise Underivable(f'{fname}: list branch passes {option} inconsistently: {sorted(vals)}')
+        v = vals.pop()
+        if v == option:
+            return [f'    return {option}']
+        if v in ('None', 'False'):
+            return ['    return 0']
+        if v == 'True':
+            return ['    return 1']
+        try:
+            float(v)
+        except ValueError:
+            raise Underivable(f'{fname}: list branch passes {option}={v}') from None
+        return [f'    return {v}']
+    return go
+
+
+def _d_noise_index(fname):
+    """index into a per-dataset noise list used for dataset i_dat (list branch)"""
+    def go():
+        fn = _func('rdm/calc.py', fname)
+        body = _top_split(fn, 'list')
+        loops = [n for n in body if isinstance(n, ast.For)]
+        if len(loops) != 1 or ast.unparse(loops[0].iter) != 'enumerate(dataset)' \
+                or ast.unparse(loops[0].target) != '(i_dat, ds_i)':
+            raise Underivable(f'{fname}: `for i_dat, ds_i in enumerate(dataset)` not found')
+        subs = [n for n in ast.walk(loops[0]) if isinstance(n, ast.Subscript)
+                and _is_name(n.value, 'noise')]
+        if len(subs) != 1:
+            raise Underivable(f'{fname}: expected one `noise[...]`, found {len(subs)}')
+        idx = subs[0].slice
+        if _is_name(idx, 'i_dat'):
+            r = 'i_dat'
+        elif isinstance(idx, ast.Constant) and isinstance(idx.value, int) and idx.value >= 0:
+            r = str(idx.value)
+        else:
+            r = ast.unparse(idx)
+        # every per-dataset call must be on ds_i
+        for c in _rec_calls(loops[0].body, fname):
+            got = _bind(c, fn)
+            if not _is_name(got['dataset'], 'ds_i'):
+                raise Underivable(f'{fname}: per-dataset call is not on ds_i')
+        return [f'    return {r}']
+    return go
+
+
+def _movie_single():
+    return _top_split(_func('rdm/calc.py', 'calc_rdm_movie'), 'single')
+
+
+def _movie_bins_if():
+    body = _movie_single()
+    ifs = [n for n in body if isinstance(n, ast.If) and ast.unparse(n.test) == 'bins is not None']
+    if len(ifs) != 1 or not ifs[0].orelse:
+        raise Underivable('calc_rdm_movie: `if bins is not None: ... else: ...` not found')
+    return ifs[0]
+
+
+def _assigned(stmts, target):
+    hits = [s for s in stmts if isinstance(s, ast.Assign) and len(s.targets) == 1
+            and ast.unparse(s.targets[0]) == target]
+    if len(hits) != 1:
+        raise Underivable(f'calc_rdm_movie: expected one assignment to {target}')
+    return ast.unparse(hits[0].value)
+
+
+def _d_movie_source(target, binned_text, raw_text):
+    def go():
+        node = _movie_bins_if()
+        b = _assigned(node.body, target)
+        r = _assigned(node.orelse, target)
+        if _assigned(node.body, 'binned_data') != 'dataset.bin_time(time_descriptor, bins)':
+            raise Underivable('calc_rdm_movie: binned_data is not dataset.bin_time(time_descriptor, bins)')
+
+        def code(text):
+            if text == binned_text:
+                return 1
+            if text == raw_text:
+                return 0
+            raise Underivable(f'calc_rdm_movie: {target} = {text}')
+        return ['    if binned == 1:', f'        return {code(b)}', '    else:',
+                f'        return {code(r)}']
+    return go
+
+
+def _d_movie_time_rule():
+    body = _movie_single()
+    hits = [s for s in body if isinstance(s, ast.Assign) and len(s.targets) == 1
+            and ast.unparse(s.targets[0]) == 'rdm.rdm_descriptors[time_descriptor]']
+    if len(hits) != 1:
+        raise Underivable('calc_rdm_movie: assignment to rdm.rdm_descriptors[time_descriptor] not found')
+    v = ast.unparse(hits[0].value)
+    if v == 'get_unique_unsorted(time)':
+        return ['    return 1']
+    if v == 'time':
+        return ['    return 0']
+    raise Underivable(f'calc_rdm_movie: time descriptor of the stack = {v}')
+
+
+def _d_movie_frame_fwd(option):
+    """what calc_rdm receives for `option` from calc_rdm_movie (per frame)"""
+    def go():
+        body = _movie_single()
+        calls = _rec_calls(body, 'calc_rdm')
+        fn = _func('rdm/calc.py', 'calc_rdm')
+        if len(calls) != 1:
+            raise Underivable(f'calc_rdm_movie: {len(calls)} calc_rdm calls')
+        got = _bind(calls[0], fn)
+        if not _is_name(got['dataset'], 'dat_single'):
+            raise Underivable('calc_rdm_movie: calc_rdm is not called on dat_single')
+        e = got.get(option) or _default(fn, option)
+        v = ast.unparse(e)
+        if v == option:
+            return [f'    return {option}']
+        if v in ('None', 'False'):
+            return ['    return 0']
+        float(v)
+        return [f'    return {v}']
+    return go
+
+
+def _d_wrap_vector():
+    fn = _func('util/build_rdm.py', '_build_rdms')
+    ifs = [n for n in ast.walk(fn) if isinstance(n, ast.If) and len(n.body) == 1
+           and ast.unparse(n.body[0]) == 'value = [value]']
+    if len(ifs) != 1:
+        raise Underivable('_build_rdms: `value = [value]` block not found')
+    t = ast.unparse(ifs[0].test)
+    subs = {'isinstance(value, (list, tuple, np.ndarray))': 'is_seq == 1',
+            'np.ndim(value)': 'ndim', 'len(value)': 'len_value'}
+    for a, b in subs.items():
+        if a not in t:
+            raise Underivable(f'_build_rdms: `{a}` not in the wrap condition `{t}`')
+        t = t.replace(a, b)
+    return [f'    if {t}:', '        return 1', '    else:', '        return 0']
+
+
+def _d_averaging():
+    fn = _func('util/build_rdm.py', '_averaging_occurred')
+    rets = [n for n in fn.body if isinstance(n, ast.Return)]
+    if len(rets) != 1:
+        raise Underivable('_averaging_occurred: final return not found')
+    t = ast.unparse(rets[0].value)
+    for a, b in {'len(obs_desc_vals)': 'n_unique', 'len(orig_obs_desc_vals)': 'n_obs'}.items():
+        if a not in t:
+            raise Underivable(f'_averaging_occurred: `{a}` not in `{t}`')
+        t = t.replace(a, b)
+    src = ast.unparse(fn)
+    if 'orig_obs_desc_vals = ds.obs_descriptors[obs_desc_name]' not in src:
+        raise Underivable('_averaging_occurred: orig_obs_desc_vals is not the dataset descriptor')
+    return [f'    if {t}:', '        return 1', '    else:', '        return 0']
+
+
+def _d_mean_buffer():
+    fn = _func('data/computations.py', 'average_dataset_by')
+    hits = [n for n in fn.body if isinstance(n, ast.Assign) and ast.unparse(n.targets[0]) == 'average']
+    if len(hits) != 1:
+        raise Underivable('average_dataset_by: allocation of `average` not found')
+    e = hits[0].value
+    if isinstance(e, ast.BinOp) and isinstance(e.op, ast.Mult) and ast.unparse(e.left) == 'np.nan':
+        e = e.right
+    if not (isinstance(e, ast.Call) and ast.unparse(e.func) in ('np.empty', 'np.zeros', 'np.full')):
+        raise Underivable(f'average_dataset_by: allocation `{ast.unparse(hits[0].value)}`')
+    dt = [k.value for k in e.keywords if k.arg == 'dtype']
+    if not dt:
+        return ['    return 1']
+    if ast.unparse(dt[0]) in ('float', 'np.float64', "'float64'", 'np.double'):
+        return ['    return 1']
+    return ['    return 0']     # buffer in some other (e.g. the data's) dtype
+
+
+_DERIVED_FUNCS = [
+    # name, params, body builder
+    ('dispatch', ['method'], _d_dispatch),
+    ('parse_flag', ['method', 'remove_mean'], _d_parse_flag),
+    ('fwd_noise', ['method'], _d_fwd(['noise'])),
+    ('fwd_prior', ['method'], _d_fwd(['prior_lambda', 'prior_weight'])),
+    ('mahal_none_flag', ['remove_mean'], _d_mahal_none),
+    ('default_prior_lambda', [], _d_default('calc_rdm', 'prior_lambda')),
+    ('default_prior_weight', [], _d_default('calc_rdm', 'prior_weight')),
+    ('movie_default_prior_lambda', [], _d_default('calc_rdm_movie', 'prior_lambda')),
+    ('movie_default_prior_weight', [], _d_default('calc_rdm_movie', 'prior_weight')),
+    ('poisson_default_prior_lambda', [], _d_default('calc_rdm_poisson', 'prior_lambda')),
+    ('poisson_default_prior_weight', [], _d_default('calc_rdm_poisson', 'prior_weight')),
+    ('list_remove_mean', ['remove_mean'], _d_list_fwd('calc_rdm', 'remove_mean')),
+    ('list_method', ['method'], _d_list_fwd('calc_rdm', 'method')),
+    ('list_prior_lambda', ['prior_lambda'], _d_list_fwd('calc_rdm', 'prior_lambda')),
+    ('list_prior_weight', ['prior_weight'], _d_list_fwd('calc_rdm', 'prior_weight')),
+    ('list_noise_index', ['i_dat'], _d_noise_index('calc_rdm')),
+    ('movie_list_method', ['method'], _d_list_fwd('calc_rdm_movie', 'method')),
+    ('movie_list_bins', ['bins'], _d_list_fwd('calc_rdm_movie', 'bins')),
+    ('movie_list_tdesc', ['time_descriptor'], _d_list_fwd('calc_rdm_movie', 'time_descriptor')),
+    ('movie_list_prior_lambda', ['prior_lambda'], _d_list_fwd('calc_rdm_movie', 'prior_lambda')),
+    ('movie_list_prior_weight', ['prior_weight'], _d_list_fwd('calc_rdm_movie', 'prior_weight')),
+    ('movie_list_noise_index', ['i_dat'], _d_noise_index('calc_rdm_movie')),
+    ('movie_frame_method', ['method'], _d_movie_frame_fwd('method')),
+    ('movie_frame_prior_lambda', ['prior_lambda'], _d_movie_frame_fwd('prior_lambda')),
+    ('movie_frame_prior_weight', ['prior_weight'], _d_movie_frame_fwd('prior_weight')),
+    ('movie_frame_remove_mean', [], _d_movie_frame_fwd('remove_mean')),
+    ('movie_split_source', ['binned'],
+     _d_movie_source('splited_data', 'binned_data.split_time(time_descriptor)',
+                     'dataset.split_time(time_descriptor)')),
+    ('movie_time_source', ['binned'],
+     _d_movie_source('time', 'binned_data.time_descriptors[time_descriptor]',
+                     'dataset.time_descriptors[time_descriptor]')),
+    ('movie_time_rule', [], _d_movie_time_rule),
+    ('wrap_vector', ['is_seq', 'ndim', 'len_value'], _d_wrap_vector),
+    ('averaging_occurred', ['n_unique', 'n_obs'], _d_averaging),
+    ('mean_buffer_float', [], _d_mean_buffer),
+]
+
+
+def _derive():
+    out = ['# DERIVED by harness/leaves/C01.py from the source tree under check - do not edit', '']
+    for name, params, build in _DERIVED_FUNCS:
+        try:
+            lines = build()
+        except Exception as exc:  # noqa: BLE001  (fail closed: any surprise = underivable)
+            lines = ['    return __underivable__(' + repr(f'{type(exc).__name__}: {exc}') + ')']
+        out.append(f'def {name}({", ".join(params)}):')
+        out.extend(lines)
+        out.append('')
+    text = '\n'.join(out)
+    if not (os.path.exists(DERIVED) and open(DERIVED).read() == text):
+        with open(DERIVED + '.tmp', 'w') as f:
+            f.write(text)
+        os.replace(DERIVED + '.tmp', DERIVED)
+
+
+_derive()
+
+
+def _leaf(lean_name, py_name, params, ret):
+    return dict(name=lean_name, file=DERIVED, func=py_name, kind='func', params=params, ret=ret)
+
+
+_M = {'method': 'Nat'}
+LEAVES += [
+    _leaf('dispatch', 'dispatch', _M, 'Nat'),
+    _leaf('parseFlag', 'parse_flag', {'method': 'Nat', 'remove_mean': 'Nat'}, 'Nat'),
+    _leaf('fwdNoise', 'fwd_noise', _M, 'Nat'),
+    _leaf('fwdPrior', 'fwd_prior', _M, 'Nat'),
+    _leaf('mahalNoneFlag', 'mahal_none_flag', {'remove_mean': 'Nat'}, 'Nat'),
+    _leaf('defaultPriorLambda', 'default_prior_lambda', {}, 'A'),
+    _leaf('defaultPriorWeight', 'default_prior_weight', {}, 'A'),
+    _leaf('movieDefaultPriorLambda', 'movie_default_prior_lambda', {}, 'A'),
+    _leaf('movieDefaultPriorWeight', 'movie_default_prior_weight', {}, 'A'),
+    _leaf('poissonDefaultPriorLambda', 'poisson_default_prior_lambda', {}, 'A'),
+    _leaf('poissonDefaultPriorWeight', 'poisson_default_prior_weight', {}, 'A'),
+    _leaf('listRemoveMean', 'list_remove_mean', {'remove_mean': 'Nat'}, 'Nat'),
+    _leaf('listMethod', 'list_method', _M, 'Nat'),
+    _leaf('listPriorLambda', 'list_prior_lambda', {'prior_lambda': 'A'}, 'A'),
+    _leaf('listPriorWeight', 'list_prior_weight', {'prior_weight': 'A'}, 'A'),
+    _leaf('listNoiseIndex', 'list_noise_index', {'i_dat': 'Nat'}, 'Nat'),
+    _leaf('movieListMethod', 'movie_list_method', _M, 'Nat'),
+    _leaf('movieListBins', 'movie_list_bins', {'bins': 'Nat'}, 'Nat'),
+    _leaf('movieListTdesc', 'movie_list_tdesc', {'time_descriptor': 'Nat'}, 'Nat'),
+    _leaf('movieListPriorLambda', 'movie_list_prior_lambda', {'prior_lambda': 'A'}, 'A'),
+    _leaf('movieListPriorWeight', 'movie_list_prior_weight', {'prior_weight': 'A'}, 'A'),
+    _leaf('movieListNoiseIndex', 'movie_list_noise_index', {'i_dat': 'Nat'}, 'Nat'),
+    _leaf('movieFrameMethod', 'movie_frame_method', _M, 'Nat'),
+    _leaf('movieFramePriorLambda', 'movie_frame_prior_lambda', {'prior_lambda': 'A'}, 'A'),
+    _leaf('movieFramePriorWeight', 'movie_frame_prior_weight', {'prior_weight': 'A'}, 'A'),
+    _leaf('movieFrameRemoveMean', 'movie_frame_remove_mean', {}, 'Nat'),
+    _leaf('movieSplitSource', 'movie_split_source', {'binned': 'Nat'}, 'Nat'),
+    _leaf('movieTimeSource', 'movie_time_source', {'binned': 'Nat'}, 'Nat'),
+    _leaf('movieTimeRule', 'movie_time_rule', {}, 'Nat'),
+    _leaf('wrapVector', 'wrap_vector', {'is_seq': 'Nat', 'ndim': 'Nat', 'len_value': 'Nat'}, 'Nat'),
+    _leaf('averagingOccurred', 'averaging_occurred', {'n_unique': 'Nat', 'n_obs': 'Nat'}, 'Nat'),
+    _leaf('meanBufferFloat', 'mean_buffer_float', {}, 'Nat'),
+]
